@@ -65,7 +65,7 @@ def sstruct(fs):
 
 
 def need_of(text):
-    """bytes of buffer the longest lexical item of `text` needs: quoted token + its quotes, unquoted token + its boundary byte,
+    """bytes of buffer the longest lexical item of `text` needs: quoted token + 1, unquoted token + its boundary byte,
     comment incl. `#` + 1 (measured on the unchanged reader: one byte less is answered `full`)"""
     i, n, m = 0, len(text), 8
     while i < n:
@@ -74,7 +74,7 @@ def need_of(text):
             j = i + 1
             while j < n and text[j] != 0x22:
                 j += 2 if text[j] == 0x5c else 1
-            m = max(m, j + 1 - i)
+            m = max(m, j - i)
             i = j + 1
         elif c == 0x23:
             j = i
@@ -106,7 +106,7 @@ class Cases:
         self.k += 1
         ps = list(paths if paths is not None else TAPE + BIG)
         nd = need_of(text)
-        if paths is None and len(text) > 20000:
+        if paths is None and len(text) > 20000 and self.ctx.scale(True, False):
             ps = ["slice", "objreader"][self.k % 2:][:1] + ["tape"][:self.k % 2] + BIG       # long documents: one tape-side entry point per case, alternating
         if nd > 32768 and paths is None:
             # a token that does not fit the default 32 KiB buffer is answered `full` (C07's subject): a reader that fits instead
@@ -446,11 +446,11 @@ def fam_default_buffer(C):
     """tokens that just fit the DEFAULT buffer (32 KiB) of from_*_reader / TokenReader::new: need = 32767 and 32768"""
     sh = sstruct([("a", "", "str"), ("b", "", "u8")])
     for nd in (32767, 32768):
-        q = (b"abcdefg " * 4096)[:nd - 2 - 1] + b"z"
+        q = (b"abcdefg " * 4096)[:nd - 2] + b"z"
         u = (b"abcdefgh" * 4096)[:nd - 1]
         for name, text, exp in (("quoted", b"b=2 a=\"" + q + b"\" ", vstruct([("a", vs(q)), ("b", vu(2))])),
                                 ("unquoted", b"b=2 a=" + u + b" ", vstruct([("a", vs(u)), ("b", vu(2))])),
-                                ("comment", b"a=x #" + q + b"\nb=2", vstruct([("a", vs("x")), ("b", vu(2))]))):
+                                ("comment", b"a=x #" + q[1:] + b"\nb=2", vstruct([("a", vs("x")), ("b", vu(2))]))):
             assert need_of(text) == nd, (name, need_of(text), nd)
             C.add("default_buffer_" + name, nd, text, sh, exp, paths=["slice", "reader:32768:-", "freader:-", "freader:4096*", "freader:32768,1*"], small=False, model=False)
 
@@ -468,7 +468,7 @@ def fam_buffer_size(C):
 
 def fam_depth(C):
     """nesting depth of the TARGET type: struct in struct, seq in seq, map in map, Option in Option"""
-    for d in lad(1025, 1):
+    for d in lad(C.ctx.scale(1025, 4097), 1):
         text = b"a={" * d + b"a=1" + b"}" * d
         sh = "u8"
         exp = vu(1)
